@@ -971,6 +971,9 @@ def c12(tier, hook=None):
     for i in bad:
         e, m = events[i], meta[i]
         if not e["rustc_ok"] and not e["std_ok"]:
+            if m["kind"] != "random":
+                # a hand-written special shape must be one the standard derive accepts: otherwise the special itself is wrong
+                raise dx.ToolError("special shape %s (%s entry) is rejected with the standard derive as well: %s" % (m["kind"], m["entry"], json.dumps(failed.get(i))[:600]))
             skipped += 1          # the standard derive rejects this shape as well: not a counter-example (generator artefact)
             continue
         failing = sorted(r["name"] for r in e["results"] if not r["ok"])
